@@ -449,6 +449,13 @@ def contact_tag(kind, p):
                (p['cx'] - sp_['xext'], p['cx'] + sp_['xext'], p['cy'] - sp_['yext'], p['cy'] + sp_['yext']))
     if tang:
         return ':tangent-to-pixel-edge'
+    if kind.startswith('ell') and sp_['inner']:
+        # the inner ellipse of an annulus can be tangent to a pixel edge as well
+        ai, bi = sp_['inner']
+        c, s_ = sp_['c'], sp_['s']
+        xi, yi = math.sqrt((ai * c) ** 2 + (bi * s_) ** 2), math.sqrt((ai * s_) ** 2 + (bi * c) ** 2)
+        if any(abs((v + 0.5) - round(v + 0.5)) < 1e-9 for v in (p['cx'] - xi, p['cx'] + xi, p['cy'] - yi, p['cy'] + yi)):
+            return ':tangent-to-pixel-edge'
     if kind.startswith('ell'):
         c, s_ = sp_['c'], sp_['s']
         shapes = [sp_['outer']] + ([sp_['inner']] if sp_['inner'] else [])
